@@ -249,7 +249,7 @@ def _expression_helper(fi):
     if len(body) == 1 and isinstance(body[0], ast.Return) and body[0].value is not None and not _has(body[0].value, (ast.Lambda, ast.NamedExpr)):
         return body[0].value
     # x = <expr>; y = <expr using x>; return <expr using x, y>  ->  one expression (locals assigned once, never a parameter)
-    if len(body) >= 2 and isinstance(body[-1], ast.Return) and body[-1].value is not None and len(body) <= 6:
+    if len(body) >= 2 and isinstance(body[-1], ast.Return) and body[-1].value is not None and len(body) <= 6 and all(isinstance(st, ast.Assign) for st in body[:-1]):
         params = {a.arg for a in fi.node.args.args}
         env = {}
         for st in body[:-1]:
@@ -267,13 +267,63 @@ def _expression_helper(fi):
         if _has(body[-1].value, (ast.Lambda, ast.NamedExpr)):
             return None
         return _Subst(env, {}).visit(ast.parse(ast.unparse(body[-1].value), mode="eval").body)
+    # locals, then `if c: return A` ... `return Z` (guard clauses): one conditional expression  A if c else (... Z)
+    if len(body) >= 2 and len(body) <= 10 and not _has(fi.node, (ast.Lambda, ast.NamedExpr, ast.Yield, ast.YieldFrom, ast.Await, ast.For, ast.While, ast.Try, ast.With, ast.Raise)):
+        params = {a.arg for a in fi.node.args.args}
+        IMPURE = ("execute", "executemany", "executescript", "fetchone", "fetchall", "fetchmany", "cursor", "commit", "pop", "popleft", "popitem", "append", "extend", "remove", "insert", "read", "readline", "write", "save", "create", "delete_instance", "get_or_none", "first", "count", "connect", "close")
+
+        def conv(stmts, env):
+            if not stmts:
+                return None
+            st = stmts[0]
+            if isinstance(st, ast.Assign) and len(st.targets) == 1 and isinstance(st.targets[0], ast.Name):
+                t = st.targets[0].id
+                if t in params or t in env:
+                    return None
+                if any(isinstance(x, ast.Call) and ((isinstance(x.func, ast.Attribute) and x.func.attr in IMPURE) or (isinstance(x.func, ast.Name) and x.func.id in ("next", "open", "input"))) for x in ast.walk(st.value)):
+                    return None
+                env2 = dict(env)
+                env2[t] = _Subst(dict(env), {}).visit(ast.parse(ast.unparse(st.value), mode="eval").body)
+                return conv(stmts[1:], env2)
+            if isinstance(st, ast.Return):
+                if st.value is None:
+                    return None
+                return _Subst(dict(env), {}).visit(ast.parse(ast.unparse(st.value), mode="eval").body)
+            if isinstance(st, ast.If):
+                a = conv(st.body, env)
+                b = conv(st.orelse if st.orelse else stmts[1:], env)
+                if a is None or b is None:
+                    return None
+                if st.orelse and stmts[1:]:
+                    return None
+                t_ = _Subst(dict(env), {}).visit(ast.parse(ast.unparse(st.test), mode="eval").body)
+                return ast.IfExp(test=t_, body=a, orelse=b)
+            return None
+
+        e = conv(body, {})
+        if e is not None and isinstance(e, ast.IfExp):
+            e = ast.fix_missing_locations(ast.copy_location(e, body[-1]))
+            # only for calls inside comprehensions / lambdas: where the call is a statement's value the statement inliner
+            # writes the branches out as statements, which is the shape the rules read
+            e._nested_only = True
+            return e
     return None
 
 
 class _ExprInline(ast.NodeTransformer):
     def __init__(self, mi, caller, cands, done, props=None):
         self.mi, self.caller, self.cands, self.done = mi, caller, cands, done
+        self._depth = 0
         self.props = props or {}  # (class name, attribute) -> expression over self, for unknown read-only properties
+
+    def _nested(self, n):
+        self._depth += 1
+        try:
+            return self.generic_visit(n)
+        finally:
+            self._depth -= 1
+
+    visit_ListComp = visit_SetComp = visit_DictComp = visit_GeneratorExp = visit_Lambda = _nested
 
     def visit_Attribute(self, n):
         self.generic_visit(n)
@@ -346,6 +396,8 @@ class _ExprInline(ast.NodeTransformer):
         if fi is None or (fi.qname not in self.cands and fi.qname not in getattr(self, "inherited", {})) or fi is self.caller:
             return n
         expr = self.cands.get(fi.qname) or self.inherited[fi.qname]
+        if getattr(expr, "_nested_only", False) and self._depth == 0:
+            return n
         params = [a.arg for a in fi.node.args.args]
         if fi.cls is not None and not fi.is_static and params and params[0] in ("self", "cls"):
             params = params[1:]
